@@ -108,6 +108,15 @@ func vLive(b []byte) bool               { return true }
 func vDeadlocked() bool                 { return false }
 func vNondetErr(name string) error      { return nil }
 func vHavocBytes(b []byte, name string) {}
+func vAnd(a, b bool) bool       { return a && b }
+func vOr(a, b bool) bool        { return a || b }
+func vImp(a, b bool) bool       { return !a || b }
+func vIte(c bool, a, b int) int {
+	if c {
+		return a
+	}
+	return b
+}
 func vBencode(v interface{}) []byte {
 	b, err := bencode.EncodeBytes(v)
 	if err != nil {
@@ -433,8 +442,12 @@ func nativeReplays(prop string, results []HarnessResult, viols []*violation) (in
 						r, ok = r1[j.c.I]
 					}
 					has := false
+					bare := j.label
+					if k := strings.Index(bare, ":"); k >= 0 {
+						bare = bare[k+1:]
+					}
 					for _, l := range r.Reached {
-						if l == j.label {
+						if l == bare {
 							has = true
 						}
 					}
